@@ -6,6 +6,7 @@ import (
 	"os"
 	"os/exec"
 	"path/filepath"
+	"regexp"
 	"sort"
 	"strconv"
 	"strings"
@@ -46,6 +47,7 @@ type Ctx struct {
 	Stats    map[string]int64
 	Known    map[string]string // "prop|sig" -> note
 	Avoid    map[string]bool   // signature prefixes the generators should avoid (filtered mode)
+	KS       *KnownSet         // all open known findings, exact and by family
 	Variant  string
 	Shrink   bool // executing a shrink / replay attempt
 	Cleanups []func()
@@ -105,13 +107,97 @@ type Partial struct {
 	OrderSens   int64            `json:"order_sensitive"`
 }
 
-// KnownFinding is one entry of known_findings.json.
+// KnownFinding is one entry of known_findings.json. An entry identifies its violations either by
+// the exact signature or by a regular expression over the signature (a family of inputs with one root cause).
 type KnownFinding struct {
 	Property string `json:"property"`
 	Sig      string `json:"signature"`
+	SigRegex string `json:"signature_regex,omitempty"`
+	Avoid    string `json:"avoid_regex,omitempty"` // over the part of a signature known before the call (generators steer clear of it)
 	What     string `json:"what"`
 	Status   string `json:"status"` // "open" or "fixed"
 	Commit   string `json:"commit,omitempty"`
+}
+
+type knownRx struct {
+	prop  string
+	key   string
+	re    *regexp.Regexp
+	avoid *regexp.Regexp
+}
+
+// KnownSet answers whether a violation is a recorded known finding.
+type KnownSet struct {
+	exact map[string]string
+	rx    []knownRx
+}
+
+// Match returns the key of the known finding that lists (prop, sig).
+func (k *KnownSet) Match(prop, sig string) (string, bool) {
+	if k == nil {
+		return "", false
+	}
+
+	if _, ok := k.exact[prop+"|"+sig]; ok {
+		return prop + "|" + sig, true
+	}
+
+	for i := range k.rx {
+		if k.rx[i].prop == prop && k.rx[i].re.MatchString(sig) {
+			return k.rx[i].key, true
+		}
+	}
+
+	return "", false
+}
+
+// Avoided tells whether a call whose signature prefix is given belongs to a known finding of prop.
+func (k *KnownSet) Avoided(prop, prefix string) bool {
+	if k == nil {
+		return false
+	}
+
+	for i := range k.rx {
+		if k.rx[i].prop == prop && k.rx[i].avoid != nil && k.rx[i].avoid.MatchString(prefix) {
+			return true
+		}
+	}
+
+	return false
+}
+
+// NewKnownSet compiles the open findings.
+func NewKnownSet(kf []KnownFinding) (*KnownSet, error) {
+	ks := &KnownSet{exact: map[string]string{}}
+
+	for _, f := range kf {
+		if f.Status == "fixed" {
+			continue
+		}
+
+		if f.SigRegex == "" {
+			ks.exact[f.Property+"|"+f.Sig] = f.What
+
+			continue
+		}
+
+		re, err := regexp.Compile(f.SigRegex)
+		if err != nil {
+			return nil, fmt.Errorf("known finding %q: %w", f.Sig, err)
+		}
+
+		r := knownRx{prop: f.Property, key: f.Property + "|" + f.Sig, re: re}
+
+		if f.Avoid != "" {
+			if r.avoid, err = regexp.Compile(f.Avoid); err != nil {
+				return nil, fmt.Errorf("known finding %q: %w", f.Sig, err)
+			}
+		}
+
+		ks.rx = append(ks.rx, r)
+	}
+
+	return ks, nil
 }
 
 // LoadKnown reads known_findings.json.
@@ -155,7 +241,7 @@ func knownMaps(kf []KnownFinding, prop string) (map[string]string, map[string]bo
 	avoid := map[string]bool{}
 
 	for _, k := range kf {
-		if k.Status == "fixed" {
+		if k.Status == "fixed" || k.SigRegex != "" {
 			continue
 		}
 
@@ -184,8 +270,16 @@ func RunWorker(cfg WorkerConfig) int {
 	}
 
 	known, avoid := knownMaps(kf, cfg.Prop.ID())
+
+	ks, err := NewKnownSet(kf)
+	if err != nil {
+		fmt.Println("HARNESS:", err)
+
+		return 2
+	}
+
 	ctx := &Ctx{
-		Tier: cfg.Tier, Worker: cfg.Worker, Stats: map[string]int64{}, Known: known, Avoid: avoid,
+		Tier: cfg.Tier, Worker: cfg.Worker, Stats: map[string]int64{}, Known: known, Avoid: avoid, KS: ks,
 		Variant: cfg.Variant, Aux: map[string]any{},
 	}
 
@@ -252,8 +346,8 @@ func RunWorker(cfg WorkerConfig) int {
 		}
 
 		for _, sv := range res.Soft {
-			if _, ok := known[sv.Prop+"|"+sv.Sig]; ok {
-				part.KnownHits[sv.Prop+"|"+sv.Sig]++
+			if key, ok := ks.Match(sv.Prop, sv.Sig); ok {
+				part.KnownHits[key]++
 			} else if res.Violation == nil {
 				res.Violation = sv
 			}
@@ -266,8 +360,8 @@ func RunWorker(cfg WorkerConfig) int {
 		v := res.Violation
 		key := v.Prop + "|" + v.Sig
 
-		if _, ok := known[key]; ok {
-			part.KnownHits[key]++
+		if kkey, ok := ks.Match(v.Prop, v.Sig); ok {
+			part.KnownHits[kkey]++
 
 			continue
 		}
@@ -320,13 +414,13 @@ func RunWorker(cfg WorkerConfig) int {
 			}
 
 			r := runOnce(c)
-			promoteSoft(&r, known)
+			promoteSoft(&r, ks)
 
 			if r.Violation == nil || r.Violation.Prop != v.Prop || r.Violation.Class != v.Class {
 				return false
 			}
 
-			if _, ok := known[r.Violation.Prop+"|"+r.Violation.Sig]; ok {
+			if _, ok := ks.Match(r.Violation.Prop, r.Violation.Sig); ok {
 				return false
 			}
 
@@ -343,7 +437,7 @@ func RunWorker(cfg WorkerConfig) int {
 		if !tainted {
 			ctx.Shrink = true
 			r2 = runOnce(shrunk)
-			promoteSoft(&r2, known)
+			promoteSoft(&r2, ks)
 			ctx.Shrink = false
 
 			if r2.Trace == nil {
@@ -706,6 +800,7 @@ func RunReplay(p Property, path, knownFile string) int {
 
 	kf, _ := LoadKnown(knownFile)
 	known, avoid := knownMaps(kf, p.ID())
+	ks, _ := NewKnownSet(kf)
 	attempts := 1
 
 	if rp.Note != "" {
@@ -715,9 +810,9 @@ func RunReplay(p Property, path, knownFile string) int {
 	var last RunResult
 
 	for i := 0; i < attempts; i++ {
-		ctx := &Ctx{Tier: rp.Tier, Stats: map[string]int64{}, Known: known, Avoid: avoid, Shrink: true, Aux: map[string]any{}}
+		ctx := &Ctx{Tier: rp.Tier, Stats: map[string]int64{}, Known: known, Avoid: avoid, KS: ks, Shrink: true, Aux: map[string]any{}}
 		last = p.Run(ctx, ReplayTape(rp.Tape))
-		promoteSoft(&last, known)
+		promoteSoft(&last, ks)
 
 		for _, f := range ctx.Cleanups {
 			f()
@@ -799,14 +894,15 @@ func RunProbe(p Property, tapeFile, knownFile, tier string) int {
 
 	kf, _ := LoadKnown(knownFile)
 	known, avoid := knownMaps(kf, p.ID())
-	ctx := &Ctx{Tier: tier, Stats: map[string]int64{}, Known: known, Avoid: avoid, Shrink: true, Aux: map[string]any{}}
+	ks, _ := NewKnownSet(kf)
+	ctx := &Ctx{Tier: tier, Stats: map[string]int64{}, Known: known, Avoid: avoid, KS: ks, Shrink: true, Aux: map[string]any{}}
 	r := p.Run(ctx, ReplayTape(tape))
 
 	for _, f := range ctx.Cleanups {
 		f()
 	}
 
-	promoteSoft(&r, known)
+	promoteSoft(&r, ks)
 
 	out, _ := json.Marshal(ProbeResult{Violation: r.Violation, Harness: r.Harness, Trace: r.Trace})
 	fmt.Println(string(out))
@@ -815,13 +911,13 @@ func RunProbe(p Property, tapeFile, knownFile, tier string) int {
 }
 
 // promoteSoft makes the first soft violation that is not a known finding the violation of the run.
-func promoteSoft(r *RunResult, known map[string]string) {
+func promoteSoft(r *RunResult, ks *KnownSet) {
 	if r.Violation != nil {
 		return
 	}
 
 	for _, sv := range r.Soft {
-		if _, ok := known[sv.Prop+"|"+sv.Sig]; !ok {
+		if _, ok := ks.Match(sv.Prop, sv.Sig); !ok {
 			r.Violation = sv
 
 			return
